@@ -13,11 +13,9 @@ pub fn dump_value(v: &Value, out: &mut String) {
         ValueRef::Bool(false) => out.push('f'),
         ValueRef::Number(n) => {
             if let Some(r) = v.as_raw_number() {
-                if v.as_number().is_none() {
-                    out.push('r');
-                    out.push_str(&hex(r.as_str().as_bytes()));
-                    return;
-                }
+                out.push('r');
+                out.push_str(&hex(r.as_str().as_bytes()));
+                return;
             }
             dump_number(&n, out)
         }
